@@ -215,15 +215,19 @@ CHECKS = {
             'subscriptionmgr_base.time is a virtual clock; housekeeping threads run one iteration per tick; delivery '
             'faults are HTTP status, refused connection and timeout injected at the loop-back transport.',
             'DESIGN.md section 2 C08'),
-    'C13': ('hypothesis generated HTTP framing and structure-aware mutations of recorded valid SOAP requests, driven '
-            'in-process through the real DispatchingRequestHandler (fake socket) into a live provider and a live consumer; '
+    'C13': ('hypothesis generated HTTP framing and structure-aware mutations of recorded valid SOAP requests, plus '
+            'coverage-guided byte fuzzing (atheris / libFuzzer, seeded with the recorded requests), both driven in-process '
+            'through the real DispatchingRequestHandler (fake socket) into a live provider and live consumers; '
             'totality / response-shape / canary / unchanged-state oracles',
             'Requests are judged by: nothing escapes handle(), no spinning at end of stream, an HTTP status line for every '
             'well-formed request line, a well-formed SOAP fault for faults, a canary file / internal entity token that must '
             'appear neither in the response nor in the parsed tree handed on by the message reader, and an unchanged MDIB '
-            'and subscription table after every rejected request.',
-            'The peer is modelled as closing after sending; kernel sockets, timeouts and TLS are not in the loop; a '
-            'coverage-guided byte fuzzer is not part of the registered commands.',
+            'and subscription table after every rejected request. A valid request that follows a well-framed POST on the '
+            'same connection must be answered properly (the body is never taken for a request); the worker thread of a '
+            'consumer with the deferred dispatcher must survive every request and still process a valid notification. '
+            'The atheris campaigns (thorough: 6 x 60000 runs; quick: 800 runs) use the same judge inside the target.',
+            'The peer is modelled as closing after sending; kernel sockets, timeouts and TLS are not in the loop. libFuzzer '
+            'campaigns are pinned by -seed / -runs only approximately; every finding is saved as a replayable input.',
             'DESIGN.md section 2 C13'),
 }
 
